@@ -105,6 +105,11 @@ Definition lua_field (name : string) : string :=
 Definition lua_key (name : string) : string :=
   if is_lua_keyword name then "[" ++ lua_string name ++ "]" else name.
 
+(* a read of the global `name`, also when the name is a reserved word (lua.rs lua_global, /repo since the fix of
+   keyword-named externals) *)
+Definition lua_global (name : string) : string :=
+  if is_lua_keyword name then "_G[" ++ lua_string name ++ "]" else name.
+
 Definition gen_one (u : counts) (l : lut) (op : ir) : string * lut :=
   let bin := fun t (pre mid post : string) a b => iis u l t (pre ++ expand l a ++ mid ++ expand l b ++ post) in
   match op with
@@ -134,7 +139,7 @@ Definition gen_one (u : counts) (l : lut) (op : ir) : string * lut :=
       if 0 <? count_of u t then ("local " ++ fmt_var t ++ " = __INDEX(" ++ expand l a ++ ", " ++ expand l i ++ ")", l) else ("", l)
   | IFunction f params =>
       ("local function " ++ expand l f ++ "(" ++ join ", " (map fmt_var params) ++ ")", l)
-  | IExternal t e => (expand l t ++ " = " ++ e, l)
+  | IExternal t e => (expand l t ++ " = " ++ lua_global e, l)
   | ICall t f args => ("local " ++ expand l t ++ " = " ++ expand l f ++ "(" ++ comma_sep l args ++ ")", l)
   | IAssert v => ("assert(" ++ expand l v ++ ", ""Assert failed!"")", l)
   | IDefine t => if 0 <? count_of u t then ("local " ++ expand l t ++ " = nil", l) else ("", l)
